@@ -764,6 +764,32 @@ func checkC10(w *World, r *Report) {
 		r.Check(okG, "C10.R5", fname(a.regGet)+":looks-up-pid.ID", "get looks the process up by pid.ID", w.fnPos(a.regGet), "get does not look up lookup[pid.ID]")
 	}
 	checkOptionStores(w, r, "C10.R5", "WithID", "ID", "FV:id")
+	{
+		spawn := w.Method("actor", "Engine", "Spawn")
+		spawnProc := w.Method("actor", "Engine", "SpawnProc")
+		why := "The spawn wrappers must hand producer, kind and options through unchanged."
+		w.checkRow(r, row{rule: "C10.R5", fn: w.Method("actor", "Engine", "SpawnFunc"), callee: EvCall("Spawn", spawn), name: "Engine.Spawn", args: []string{"P0", "call:actor.newFuncReceiver(P1)", "P2", "P3"}, why: why})
+		w.checkRow(r, row{rule: "C10.R5", fn: w.Method("actor", "Context", "SpawnChildFunc"), callee: EvCall("SpawnChild", w.Method("actor", "Context", "SpawnChild")), name: "Context.SpawnChild", args: []string{"P0", "call:actor.newFuncReceiver(P1)", "P2", "P3"}, why: why})
+		w.checkRow(r, row{rule: "C10.R5", fn: spawn, callee: EvCall("SpawnProc", spawnProc), name: "Engine.SpawnProc", args: []string{"P0", "re:call:actor\\.newProcess\\(P0,call:actor\\.DefaultOpts\\(P1\\)\\)"}, why: why})
+		if spawn != nil {
+			// kind stored, every option applied to the options being built
+			sg := w.FG(spawn)
+			kind, opts := false, false
+			for _, in := range sg.ins {
+				if st, ok := in.(*ssa.Store); ok {
+					if fa, ok := st.Addr.(*ssa.FieldAddr); ok {
+						if name, _ := fieldName(fa); name == "Kind" && w.pathOf(st.Val) == "P2" {
+							kind = true
+						}
+					}
+				}
+				if c, ok := in.(*ssa.Call); ok && c.Call.StaticCallee() == nil && !c.Call.IsInvoke() && strings.HasPrefix(w.pathOf(c.Call.Value), "P3[") && len(c.Call.Args) == 1 {
+					opts = true
+				}
+			}
+			r.Check(kind && opts, "C10.R5", "Engine.Spawn:kind-and-options", "Spawn records the kind and applies every option to the process options", w.fnPos(spawn), "the kind or the caller's options (WithID ...) are not applied to the spawned process")
+		}
+	}
 	// R6: the id is released when the actor stops (even if its Stopped handler panics)
 	r.Rule("C10.R6", "the stop function unregisters the actor on every path, before Stopped is delivered", 1)
 	if pr := w.findProcRoles(); !pr.fail(r, "C10.R6") {
